@@ -1726,6 +1726,24 @@ fn scripted(out: &mut Out) {
         "offline", "online", "adv 6000", "nrebirth", "drebirth 1", "ncmd rb=1 ts=1",
     ]);
     run(out, 1_000_000_000, "ncmd-cooldown-huge", &["online", "ncmd rb=1 ts=1", "adv 6000", "ncmd rb=1 ts=1", "nrebirth"]);
+    // C04 across MANY node births: a device task held in its callback with its birthed flag set while the
+    // node goes through 256 (and one more) births - whatever identifies "the node birth the DBIRTH belongs
+    // to" must not come round again: the DDATA is refused until the device's DBIRTH of the CURRENT birth
+    {
+        let mut steps: Vec<String> = ["online", "reg 1", "enable 1", "reg 2", "enable 2", "cbpark 1", "dcmd 1 ts=1"].iter().map(|s| s.to_string()).collect();
+        for k in 0..257 {
+            steps.push(if k % 2 == 0 { "nrebirth".into() } else { "ncmd rb=1 ts=1".into() });
+            if k == 255 || k == 256 {
+                steps.push("pub dev 1 try n=1".into());
+                steps.push("pub dev 2 try n=1".into());
+            }
+        }
+        steps.push("disable 1".into());
+        steps.push("cbrelease 1".into());
+        steps.push("pub dev 1 try n=1".into());
+        let refs: Vec<&str> = steps.iter().map(|s| s.as_str()).collect();
+        run(out, 0, "c04-256-node-births-behind-a-held-device", &refs);
+    }
     // a held node callback blocks the node's state progression: events queue up behind it
     run(out, 0, "held-ncmd-callback", &[
         "online", "reg 1", "enable 1", "cbpark node", "ncmd rb=x ts=1", "nrebirth", "pub node try n=1", "offline", "pub node try n=1", "online",
